@@ -63,7 +63,10 @@ from nemoguardrails.rails.llm.options import (
     GenerationOptions,
     GenerationResponse,
 )
-from nemoguardrails.rails.llm.utils import get_history_cache_key
+from nemoguardrails.rails.llm.utils import (
+    get_history_cache_key,
+    get_history_cache_signature,
+)
 from nemoguardrails.streaming import StreamingHandler
 from nemoguardrails.utils import get_or_create_event_loop, new_event_dict, new_uuid
 
@@ -450,6 +453,33 @@ class LLMRails:
                 kwargs = esp_config.parameters
                 return self.embedding_search_providers[esp_config.name](**kwargs)
 
+    def _lookup_events_history_cache(self, messages: List[dict]) -> Optional[List[dict]]:
+        """Return the events cached for exactly this sequence of messages, if any.
+
+        Different sequences of messages can share a cache key, so every key holds
+        the entries of all the sequences stored under it, each with its signature.
+        """
+        cache_key = get_history_cache_key(messages)
+        signature = get_history_cache_signature(messages)
+        for cached_signature, cached_events in self.events_history_cache.get(
+            cache_key, []
+        ):
+            if cached_signature == signature:
+                return cached_events
+        return None
+
+    def _update_events_history_cache(self, messages: List[dict], events: List[dict]):
+        """Store the events for this sequence of messages (replacing a previous entry)."""
+        cache_key = get_history_cache_key(messages)
+        signature = get_history_cache_signature(messages)
+        entries = [
+            entry
+            for entry in self.events_history_cache.get(cache_key, [])
+            if entry[0] != signature
+        ]
+        entries.append((signature, events))
+        self.events_history_cache[cache_key] = entries
+
     def _get_events_for_messages(self, messages: List[dict], state: Any):
         """Return the list of events corresponding to the provided messages.
 
@@ -475,9 +505,9 @@ class LLMRails:
             # of events.
             p = len(messages) - 1
             while p > 0:
-                cache_key = get_history_cache_key(messages[0:p])
-                if cache_key in self.events_history_cache:
-                    events = self.events_history_cache[cache_key].copy()
+                cached_events = self._lookup_events_history_cache(messages[0:p])
+                if cached_events is not None:
+                    events = cached_events.copy()
                     break
 
                 p -= 1
@@ -772,8 +802,7 @@ class LLMRails:
             # If a state object is not used, then we use the implicit caching
             if state is None:
                 # Save the new events in the history and update the cache
-                cache_key = get_history_cache_key(messages + [new_message])
-                self.events_history_cache[cache_key] = events
+                self._update_events_history_cache(messages + [new_message], events)
             else:
                 output_state = {"events": events}
 
